@@ -19,17 +19,24 @@ from mc.core import family
 def enum_words(tier, seed):
     for dim in (2, 3):
         names = list(XF.gens(dim))
-        pairs = XF.PAIRS_QUICK if tier == "quick" else [p for p in itertools.permutations(names, 2) if p[0] < p[1]] + [("det2@int", "shear@int"), ("detm3@int", "proj@int")]
-        for s, t in pairs:
-            yield (dim, s, t)
+        if tier == "quick":
+            for s, t in XF.PAIRS_QUICK:
+                yield (dim, s, t, 4)
+        else:
+            # thorough: the quick pairs one level deeper, and every pair of generators at depth 4
+            for s, t in XF.PAIRS_QUICK:
+                yield (dim, s, t, 5)
+            for s, t in [p for p in itertools.permutations(names, 2) if p[0] < p[1]] + [("det2@int", "shear@int"), ("detm3@int", "proj@int")]:
+                if (s, t) not in XF.PAIRS_QUICK:
+                    yield (dim, s, t, 4)
 
 
 @family("C06", "word_bfs", enum_words)
 def case_words(ctx, cfg):
     import geometer as G
 
-    dim, sname, tname = cfg
-    depth = 4 if ctx.tier == "quick" else 5
+    dim, sname, tname = cfg[:3]
+    depth = cfg[3] if len(cfg) > 3 else 4
     Ms = {"s": XF.gen_matrix(dim, sname), "t": XF.gen_matrix(dim, tname)}
     Ms["S"] = X.inv(Ms["s"])
     Ms["T"] = X.inv(Ms["t"])
@@ -66,7 +73,7 @@ def case_words(ctx, cfg):
     queue = deque([("", I, objs0, ident)])
     while queue:
         word, M, objs, T = queue.popleft()
-        if len(word) >= depth:
+        if len(word) >= depth or ctx.expired():
             continue
         for L in "sStT":
             M2 = X.matmul(Ms[L], M)
